@@ -127,6 +127,8 @@ class KProc(object):
         self.stderr = None
         self.passed_fds = ()
         self.reaped_by = None
+        self.death_how = None       # injected | self-exit | external | signal (delivered by somebody in this world)
+        self.death_call = None
 
 
 def status_exit(code):
@@ -202,6 +204,8 @@ class Kernel(object):
         p.state = 'zombie'
         p.status = status
         p.t_death = self.clock.now if t is None else t
+        p.death_how = how
+        p.death_call = self.calls
         p.die_at = None
         # orphans are re-parented to init
         for c in self.procs.values():
